@@ -9,6 +9,7 @@ import (
 	"fmt"
 	"os"
 	"sort"
+	"sync/atomic"
 	"testing"
 	"time"
 
@@ -27,7 +28,14 @@ type vfCase struct {
 	rdFail  int
 }
 
+// after this many parses that did not terminate the verdict is decided; further cases would only wait for the watchdog
+var vfNoTermination int32
+
 func vfCheckCase(r *rep.R, c vfCase) {
+	if atomic.LoadInt32(&vfNoTermination) >= 6 {
+		r.Add("cases_not_run_after_repeated_no_termination", 1)
+		return
+	}
 	rd := &vfReader{data: c.data, cuts: c.cuts, eofWith: c.eofWith, failAt: c.rdFail, failErr: errVfRead}
 	run := vfParse(rd, c.initBuf, c.cbFail, vfWatchdog)
 	r.Eval(1)
@@ -44,6 +52,7 @@ func vfCheckCase(r *rep.R, c vfCase) {
 		r.Add("finished_only_in_grace_period", 1)
 	}
 	if !run.finished {
+		atomic.AddInt32(&vfNoTermination, 1)
 		r.Violation("no-termination", detail(map[string]any{"watchdog_s": vfWatchdog.Seconds(), "well_formed_sizes": wf}))
 		return
 	}
